@@ -1,5 +1,6 @@
 import FormulaTie.GenClassify
 import SpowtdModel.Model.Classify
+import SpowtdModel.Model.Runs
 /-
   Tie: thresholds and flags of classify.py (translated from the source on every run) are those of the model.
   `time_step_h` is what the query `SELECT CAST(time_step_s AS double precision) / 3600. FROM time_grid`
@@ -33,5 +34,22 @@ theorem flagJump_is_source (j : α) (dt : Int) (z0 : α) (z : List α) :
 /-- the element-wise part of `increments` is the model's `incs`: later minus earlier -/
 theorem incs_is_source (z : List α) :
     incs z = List.zipWith (fun b a => (Gen.interstormIncrement b a).getLastD b) z.tail z := rfl
+
+/-- get_mystery_jump_mask: the loop starts in the "unexplained" state ... -/
+theorem mysteryMask_init_is_source (isJump isWet : List Bool) :
+    mysteryMask isJump isWet = mysteryAux Gen.mysteryInit isJump isWet := rfl
+
+/-- ... and one pass of its body is one step of the model's state machine: rain resets the state, a rise
+    without rain sets it, and the flag written for the sample is the new state -/
+theorem mysteryAux_step_is_source (st j w : Bool) (js ws : List Bool) :
+    mysteryAux st (j :: js) (w :: ws) = Gen.mysteryStep st j w :: mysteryAux (Gen.mysteryStep st j w) js ws := rfl
+
+/-- match_all_storms: a storm is recorded from the start of its first rainy step through the end of its
+    last one, `int(epoch[rain_stop - 1]) + time_step_s`; a rise from its first to its last sample,
+    `int(epoch[jump_start])` … `int(epoch[jump_stop - 1])` (the source's `jump_stop` is one past the last sample,
+    the model's run `[a, b)` is over increments, so its last sample is `b`) -/
+theorem epochs_are_source (eFirst eLast step : Int) :
+    stormThru eLast step = Gen.stormThruEpoch eLast step ∧ Gen.stormStartEpoch eFirst = eFirst ∧
+    Gen.jumpStartEpoch eFirst = eFirst ∧ Gen.jumpThruEpoch eLast = eLast := ⟨rfl, rfl, rfl, rfl⟩
 
 end Spowtd.FormulaTie
